@@ -392,6 +392,8 @@ fn encode_subframe(
 ) -> SubFrame {
     if config.use_constant && is_constant(samples) {
         // Assuming constant is always best if it's applicable.
+        #[cfg(flacenc_verif)]
+        crate::verif_hook::point("cov.subframe.choice", 0, samples.len());
         Constant::from_parts(samples.len(), samples[0], bits_per_sample).into()
     } else {
         let baseline_bits =
@@ -414,6 +416,18 @@ fn encode_subframe(
             None
         };
 
+        #[cfg(flacenc_verif)]
+        crate::verif_hook::point(
+            "cov.subframe.choice",
+            if est_lpc.is_some() {
+                3
+            } else if fixed.is_some() {
+                2
+            } else {
+                1
+            },
+            samples.len(),
+        );
         est_lpc
             .or(fixed)
             .unwrap_or_else(|| Verbatim::from_samples(samples, bits_per_sample).into())
